@@ -8,6 +8,7 @@ import (
 	"fmt"
 	"math/big"
 	"net/http"
+	"net/url"
 	"sort"
 	"strconv"
 	"strings"
@@ -32,6 +33,10 @@ import (
 // before and after the whole batch of reads).
 //
 // an id that no submission defines maps to a hash that is not stored (unknown hash).
+// a hash argument may be <letter><id>: a string DERIVED from the hash of <id> that is never that hash itself, so it must be
+// answered exactly like an unknown hash:  u upper case | m mixed case | z all leading zeros stripped | o one leading zero
+// stripped | d one digit dropped | w one digit doubled | p zero-padded on the left to 66 | b surrounded by blanks |
+// r byte-reversed | x 0x prefix  (when the derivation happens to give the hash itself, its last digit is dropped).
 
 func init() { register("C04", runC04) }
 
@@ -212,17 +217,88 @@ func (e *c04Env) tipList(code int, body string) string {
 	return "200 [" + strings.Join(ss, " ") + "]"
 }
 
-func parseIDs(arg string) ([]int, error) {
+// hashVariant derives from a hash a string that is not that hash.
+func hashVariant(h string, kind byte) (string, error) {
+	var v string
+	switch kind {
+	case 'u':
+		v = strings.ToUpper(h)
+	case 'm':
+		b := []byte(h)
+		n := 0
+		for i, c := range b {
+			if c >= 'a' && c <= 'f' {
+				if n%2 == 0 {
+					b[i] = c - 'a' + 'A'
+				}
+				n++
+			}
+		}
+		v = string(b)
+	case 'z':
+		v = strings.TrimLeft(h, "0")
+	case 'o':
+		v = strings.TrimPrefix(h, "0")
+	case 'd':
+		v = h[:len(h)/2] + h[len(h)/2+1:]
+	case 'w':
+		v = h[:len(h)/2] + h[len(h)/2:len(h)/2+1] + h[len(h)/2:]
+	case 'p':
+		v = "00" + h
+	case 'b':
+		v = " " + h + " "
+	case 'r':
+		b := []byte(h)
+		for i := 0; i+1 < len(b); i += 2 {
+			j := len(b) - 2 - i
+			if i >= j {
+				break
+			}
+			b[i], b[i+1], b[j], b[j+1] = b[j], b[j+1], b[i], b[i+1]
+		}
+		v = string(b)
+	case 'x':
+		v = "0x" + h
+	default:
+		return "", fmt.Errorf("unknown hash variant %q", string(kind))
+	}
+	if v == h {
+		v = h[:len(h)-1]
+	}
+	return v, nil
+}
+
+// hashArg maps a hash argument token (<id> or <letter><id>) to the string sent to the service.
+func (e *c04Env) hashArg(tok string) (string, error) {
+	if tok == "" {
+		return "", fmt.Errorf("empty hash argument")
+	}
+	kind := byte(0)
+	if tok[0] >= 'a' && tok[0] <= 'z' {
+		kind, tok = tok[0], tok[1:]
+	}
+	id, err := strconv.Atoi(tok)
+	if err != nil {
+		return "", fmt.Errorf("bad id %q", tok)
+	}
+	h := e.hashOf(id)
+	if kind == 0 {
+		return h, nil
+	}
+	return hashVariant(h, kind)
+}
+
+func (e *c04Env) hashArgs(arg string) ([]string, error) {
 	if arg == "" {
 		return nil, nil
 	}
-	var out []int
+	var out []string
 	for _, x := range strings.Split(arg, "/") {
-		v, err := strconv.Atoi(x)
+		h, err := e.hashArg(x)
 		if err != nil {
-			return nil, fmt.Errorf("bad id %q", x)
+			return nil, err
 		}
-		out = append(out, v)
+		out = append(out, h)
 	}
 	return out, nil
 }
@@ -241,15 +317,15 @@ func (e *c04Env) query(q string) (string, error) {
 		}
 		return "rows " + RowsString(rows, e.m), nil
 	case "H", "S":
-		id, err := strconv.Atoi(arg)
+		h, err := e.hashArg(arg)
 		if err != nil {
-			return "", fmt.Errorf("bad query %q", q)
+			return "", fmt.Errorf("bad query %q: %v", q, err)
 		}
 		if kind == "H" {
-			code, body := e.do("GET", c04API+"/header/"+e.hashOf(id), "")
+			code, body := e.do("GET", c04API+"/header/"+url.PathEscape(h), "")
 			return e.one(code, body), nil
 		}
-		code, body := e.do("GET", c04API+"/header/state/"+e.hashOf(id), "")
+		code, body := e.do("GET", c04API+"/header/state/"+url.PathEscape(h), "")
 		return e.oneState(code, body), nil
 	case "L":
 		code, body := e.do("GET", c04API+"/tip/longest", "")
@@ -283,20 +359,19 @@ func (e *c04Env) query(q string) (string, error) {
 		code, body := e.do("GET", target, "")
 		return e.list(code, body, false), nil
 	case "A":
-		ids, err := parseIDs(arg)
-		if err != nil || len(ids) != 2 {
+		hs, err := e.hashArgs(arg)
+		if err != nil || len(hs) != 2 {
 			return "", fmt.Errorf("bad query %q", q)
 		}
-		code, body := e.do("GET", c04API+"/header/"+e.hashOf(ids[0])+"/"+e.hashOf(ids[1])+"/ancestor", "")
+		code, body := e.do("GET", c04API+"/header/"+url.PathEscape(hs[0])+"/"+url.PathEscape(hs[1])+"/ancestor", "")
 		return e.list(code, body, false), nil
 	case "C":
-		ids, err := parseIDs(arg)
+		hs, err := e.hashArgs(arg)
 		if err != nil {
 			return "", fmt.Errorf("bad query %q", q)
 		}
-		hs := make([]string, 0, len(ids))
-		for _, id := range ids {
-			hs = append(hs, e.hashOf(id))
+		if hs == nil {
+			hs = []string{}
 		}
 		b, _ := json.Marshal(hs)
 		code, body := e.do("POST", c04API+"/header/commonAncestor", string(b))
@@ -339,13 +414,14 @@ func splitC04(input string) (hist string, queries []string) {
 
 // c04Gen builds the query batches for a materialised history whose rows are stored.
 type c04Gen struct {
-	c      *Ctx
-	stored []int         // stored ids in rowid order
-	height map[int]int64 // stored id -> height
-	state  map[int]string
-	prev   map[int]int
-	unk    []int // ids that are not stored
-	maxH   int64
+	c        *Ctx
+	stored   []int         // stored ids in rowid order
+	height   map[int]int64 // stored id -> height
+	state    map[int]string
+	prev     map[int]int
+	unk      []int // ids that are not stored
+	maxH     int64
+	zeroLead map[int]bool // stored ids whose hash starts with a zero digit
 }
 
 func newC04Gen(c *Ctx, e *c04Env) (*c04Gen, error) {
@@ -353,9 +429,10 @@ func newC04Gen(c *Ctx, e *c04Env) (*c04Gen, error) {
 	if err != nil {
 		return nil, err
 	}
-	g := &c04Gen{c: c, height: map[int]int64{}, state: map[int]string{}, prev: map[int]int{}}
+	g := &c04Gen{c: c, height: map[int]int64{}, state: map[int]string{}, prev: map[int]int{}, zeroLead: map[int]bool{}}
 	for _, r := range rows {
 		id := e.m.ID(r.Hash)
+		g.zeroLead[id] = strings.HasPrefix(r.Hash, "0")
 		g.stored = append(g.stored, id)
 		g.height[id] = r.Height
 		g.state[id] = stLetter(r.State)
@@ -440,6 +517,48 @@ func (g *c04Gen) batches() [][]string {
 		qs = append(qs, fmt.Sprintf("H=%d", id), fmt.Sprintf("S=%d", id))
 	}
 	chunk("lookup", qs, 80)
+
+	// strings DERIVED from stored hashes (never sampled away): every hash parameter and body element must treat them as unknown.
+	// genesis always starts with zero digits; one more stored header at random, plus every stored hash that starts with a zero.
+	qs = nil
+	kinds := "umzodwpbrx"
+	other := g.stored[c.Rng.Intn(len(g.stored))]
+	partner := g.stored[c.Rng.Intn(len(g.stored))]
+	for i := 0; i < len(kinds); i++ {
+		k := string(kinds[i])
+		qs = append(qs, fmt.Sprintf("H=%s%d", k, genesisID), fmt.Sprintf("H=%s%d", k, other))
+		if i%3 == 0 {
+			qs = append(qs, fmt.Sprintf("S=%s%d", k, genesisID))
+		} else {
+			qs = append(qs, fmt.Sprintf("S=%s%d", k, other))
+		}
+		// ancestors: the derived string in either position, against itself and against another stored header
+		switch i % 3 {
+		case 0:
+			qs = append(qs, fmt.Sprintf("A=%s%d/%d", k, other, genesisID))
+		case 1:
+			qs = append(qs, fmt.Sprintf("A=%d/%s%d", other, k, genesisID))
+		default:
+			qs = append(qs, fmt.Sprintf("A=%d/%s%d", other, k, other))
+		}
+		// common ancestor: alone, first, last
+		switch i % 3 {
+		case 0:
+			qs = append(qs, fmt.Sprintf("C=%s%d", k, other))
+		case 1:
+			qs = append(qs, fmt.Sprintf("C=%s%d/%d", k, other, partner))
+		default:
+			qs = append(qs, fmt.Sprintf("C=%d/%s%d", partner, k, genesisID))
+		}
+		c.Count("hash-variant:" + k)
+	}
+	for _, id := range g.stored {
+		if id != genesisID && g.zeroLead[id] {
+			qs = append(qs, fmt.Sprintf("H=z%d", id), fmt.Sprintf("S=o%d", id), fmt.Sprintf("A=z%d/%d", id, genesisID), fmt.Sprintf("C=%d/o%d", partner, id))
+			c.Count("hash-variant:stored-leading-zero")
+		}
+	}
+	chunk("derived-hash", qs, 80)
 
 	// height windows around the data
 	qs = nil
